@@ -126,6 +126,11 @@ def _judge_forked(mod, case, timeout):
         code = 0
         try:
             os.close(r)
+            try:   # whatever the case writes to the real stdout must not reach the check's own output
+                devnull = os.open(os.devnull, os.O_WRONLY)
+                os.dup2(devnull, 1)
+            except OSError:
+                pass
             try:
                 res = mod.judge(case)
                 payload = {'ok': True, 'v': [(v.cell, v.msg) for v in res.violations], 'n': res.nontrivial,
